@@ -246,6 +246,12 @@ def check(fx, rep, tier):
     from .c11 import check_r112
 
     check_r112(fx, Re(rep, "R02.3"))
+    # the same success/failure class: with a watchdog that answers from the number of polls, the outcome is the same in every run
+    # only if the number of polls does not depend on the hash order - each polled loop counts its own iterations, one per pass
+    # (C13 R13.1: canonical counter, no `continue` in front of the increment, the cadence test in front of the poll)
+    from .. import core as _core2
+
+    _core2.import_rules(rep, fx, "C13", "R02.2", only_rules=("R13.1",), floor=20, what="poll-cadence obligations (C13 R13.1) behind 'the same success/failure class'")
     return rep.finish(
         "Every start of an iteration over a hash collection on the analyze() call graph is enumerated and its consumer classified; insensitive consumers need nothing, the others are tied to a law that is "
         "re-checked here: commutativity/associativity clauses of merge for the fold, sort-on-insert for layout rows, rule isolation for rule application, payload-ignoring equality for conflicts.",
